@@ -14,6 +14,7 @@ RULE = ("values = strings up to length 4 over {a, b, -, /, *, ?, \\\\, %, Ã¤, â‚
         "(key, value); non-trivial = chain length >= 2 or a value with a special character"
         "; plus every string modifier next to `expand` in both orders on placeholder values")
 RULE += "; round 4: `re|expand` judged (the pattern's text after the placeholder scan, Spec.Mods.expandRe): patterns with escaped backslashes, wildcard characters, escaped percent signs"
+RULE += '; round 5: integers beyond 2**53 (exact), integral floats'
 ASSUMPTIONS = [
     "Python re decides validity of regular expressions and the word-character class \\w (passed to the specification per case)",
     "Python ipaddress decides validity of CIDR text",
